@@ -16,13 +16,16 @@ import numpy as np
 
 ID = "C18"
 LEVEL = "exploration"
-RULE = ("cases = (format, num_wann, lattice, R-set, centres[, group, matrix set, periodic]) over the full product of the "
-        "alphabets; each case writes the system with the library writer(s) of that format in every supported variant "
-        "(tb: convention II with/without reading AA, convention I, Ham-only; hr: centres from the WT file / passed; "
-        "npz: real listing) and reads it back; npz_order cases enumerate all 7! listings of the property files x the "
-        "listings of the matrix files; ref_* cases feed the readers files of an independent writer with Ndegen in {1,2,3}. "
-        "non-trivial = the system has something a faulty writer/reader could mix up (>=2 Wannier functions, or >=2 "
-        "R-vectors, or non-zero centres); counted per distinct (format, num_wann, R-set, centres, lattice, group, matrices)")
+RULE = ("cases = (format, num_wann, lattice, R-set, centres[, group, matrix set, periodic]); hr / tb / npz(without symmetry): full "
+        "product of the alphabets; npz with symmetry: every (lattice, group) pair x num_wann {1,3} x matrix set {Ham, all} (the group "
+        "lives in its own file). Each case writes the system with the library writer(s) of that format in every supported variant "
+        "(tb: convention II with/without reading AA, convention I, Ham-only with/without centres passed; hr: centres passed / from "
+        "the WT centre file; npz: real listing, all matrices / matrices=[Ham]) and reads it back; wcc cases: centre file alone for "
+        "every num_wann; npz_order cases enumerate all 7! = 5040 listings of the property files (x position of the matrix files in "
+        "the listing x the 6 listings of 3 matrix files, cycled) through a fake `glob` module; ref_* cases feed the readers files of "
+        "an independent writer with Ndegen patterns {1, 2, mixed 1..3}. non-trivial = the system has something a faulty writer/reader "
+        "could mix up (>=2 Wannier functions, or >=2 R-vectors, or non-zero centres); counted per distinct "
+        "(format, num_wann, R-set, centres, lattice, group, matrices); npz_order counts the distinct first-listed files")
 ASSUMPTIONS = [
     "R-sets contain R=0 and are closed under R->-R; all directions periodic except one 2D family (planar R-set)",
     "AA(R=0) has zero diagonal (the constraint System_R imposes), so convention II <-> I is invertible",
